@@ -28,6 +28,7 @@ type HarnessCfg struct {
 	QueryMs  int               `json:"query_ms,omitempty"`
 	Native   bool              `json:"native,omitempty"`
 	NoMerge  bool              `json:"nomerge,omitempty"`
+	UnwindIsViolation bool     `json:"unwind_is_violation,omitempty"` // the harness's subject is termination: exceeding the (generous) loop bound is reported
 	Note     string            `json:"note,omitempty"`
 	Pin      *Model            `json:"pin,omitempty"`
 	Known    map[string]string `json:"-"`
